@@ -663,7 +663,24 @@ class Array(metaclass=MetaArray):
         if compatible:
             cls = self.__class__
             if cls._is_static_type or is_integer(value):
-                cls._to_buffer(self._buffer, self._offset, value)
+                if (
+                    is_integer(value)
+                    or hasattr(value, "dtype")
+                    or isinstance(value, cls)
+                ):
+                    # written in one go
+                    cls._to_buffer(self._buffer, self._offset, value)
+                else:
+                    # a python sequence is written item by item and an item
+                    # may be refused: all or nothing
+                    saved = self._buffer.to_bytearray(
+                        self._offset, self._get_size()
+                    )
+                    try:
+                        cls._to_buffer(self._buffer, self._offset, value)
+                    except Exception:
+                        self._buffer.update_from_buffer(self._offset, saved)
+                        raise
             elif (
                 isinstance(value, cls)
                 and not cls._has_refs
